@@ -7,7 +7,9 @@ Oracle: refisotp.Monitor (justification search), no exception, probe reassembled
 """
 from __future__ import annotations
 
+import contextlib
 import copy
+import io
 from typing import Any, Dict, List, Optional, Tuple
 
 from mcx.bfs import bfs
@@ -17,6 +19,7 @@ from odxmodel.refisotp import Monitor, pattern, segment
 PROPERTY = "C13"
 LEVEL = "fault_enumeration"
 
+_SINK = io.StringIO()
 RX = 0x7E8
 RX2 = 0x7E9
 FOREIGN = 0x123
@@ -26,13 +29,35 @@ def fh(b: bytes) -> str:
     return bytes(b).hex()
 
 
-class Run:
-    """One execution: a real IsoTpStateMachine + one monitor per known ID."""
+class FakeBus:
 
-    def __init__(self, ids: Tuple[int, ...] = (RX, RX2)) -> None:
-        from odxtools.isotp_state_machine import IsoTpStateMachine
+    def __init__(self) -> None:
+        self.sent: List[Any] = []
+
+    def send(self, msg: Any, timeout: Any = None) -> None:
+        self.sent.append(msg)
+
+
+VARIANTS = ("plain", "snoop-verbose", "snoop-verbose-active")
+
+
+class Run:
+    """One execution: a real ISO-TP decoder + one monitor per known ID.  Variants: the plain IsoTpStateMachine,
+    the verbose decoder that `odxtools snoop` builds around it, and the verbose active decoder on a fake bus."""
+
+    def __init__(self, ids: Tuple[int, ...] = (RX, RX2), variant: str = "plain") -> None:
+        from odxtools.isotp_state_machine import IsoTpActiveDecoder, IsoTpStateMachine
         self.ids = ids
-        self.sm = IsoTpStateMachine(list(ids))
+        self.variant = variant
+        if variant == "plain":
+            self.sm = IsoTpStateMachine(list(ids))
+        else:
+            from odxtools.cli.snoop import init_verbose_state_machine
+            if variant == "snoop-verbose":
+                self.sm = init_verbose_state_machine(IsoTpStateMachine, can_rx_ids=list(ids))
+            else:
+                self.sm = init_verbose_state_machine(IsoTpActiveDecoder, can_bus=FakeBus(), can_rx_ids=list(ids),
+                                                     can_tx_ids=[0x7E0 + k for k in range(len(ids))], padding_size=8)
         self.mon = {i: Monitor() for i in ids}
         self.problems: List[Tuple[str, str]] = []
         self.outputs: List[Tuple[int, bytes]] = []
@@ -42,10 +67,17 @@ class Run:
         if can_id in self.mon:
             self.mon[can_id].deliver(data)
         try:
-            got = [(i, bytes(t)) for i, t in self.sm.decode_rx_frame(can_id, bytes(data))]
+            if self.variant == "plain":
+                got = [(i, bytes(t)) for i, t in self.sm.decode_rx_frame(can_id, bytes(data))]
+            else:
+                with contextlib.redirect_stdout(_SINK):
+                    got = [(i, bytes(t)) for i, t in self.sm.decode_rx_frame(can_id, bytes(data))]
+                _SINK.seek(0)
+                _SINK.truncate()
         except Exception as e:  # the property: processing a frame never raises
             kind = frame_kind(data)
-            self.problems.append((f"C13/raises/{kind}/{type(e).__name__}", f"frame {fh(data)} on {can_id:#x}: {type(e).__name__}: {e}"))
+            v = "" if self.variant == "plain" else "/" + self.variant
+            self.problems.append((f"C13/raises/{kind}/{type(e).__name__}{v}", f"frame {fh(data)} on {can_id:#x}: {type(e).__name__}: {e}"))
             return []
         for i, t in got:
             if i != can_id or can_id not in self.mon:
@@ -67,7 +99,8 @@ class Run:
             st = self.impl_state()
         except AttributeError:  # attributes renamed: fall back to a deep repr of the instance dict
             st = repr(sorted(self.sm.__dict__.items()))
-        return (st, tuple(self.mon[i].key() for i in self.ids))
+        extra = (tuple(getattr(self.sm, "_frames_received", ())), tuple(getattr(self.sm, "_block_size", ())))
+        return (st, extra, tuple(self.mon[i].key() for i in self.ids))
 
 
 def frame_kind(data: bytes) -> str:
@@ -124,6 +157,8 @@ def frame_alphabet() -> List[Tuple[int, bytes]]:
         (RX, bytes([0x21])),  # CF without data
         (RX, bytes([0x40, 0x01])),  # unknown frame type
         (RX, bytes([0x00])),  # SF length 0
+        (RX, bytes([0x00, 0x03, 0xC1, 0xC2, 0xC3, 0xCC, 0xCC, 0xCC])),  # classic 8-byte frame that looks like an FD escape SF
+        (RX, bytes([0x00, 0x09]) + bytes(range(0xD0, 0xD9)) + bytes([0xCC])),  # genuine 12-byte FD escape SF
         (RX, bytes([0x24, 0x81, 0x82, 0x83, 0x84, 0x85, 0x86, 0x87])),  # CF4
         (RX, bytes([0x10, 0x03, 0x91, 0x92, 0x93, 0x94, 0x95, 0x96])),  # malformed FF announcing 3 bytes
         (RX, bytes([0x10, 0x00, 0x00, 0x00, 0x00, 0x0A, 0x01, 0x02])),  # FF with the 32-bit length escape
@@ -140,7 +175,7 @@ ALPHA = frame_alphabet()
 
 
 def bfs_rebuild(hist: Tuple[int, ...]) -> Run:
-    r = Run()
+    r = Run(variant=_BFS_VARIANT[0])
     allp: List[Tuple[str, str]] = []
     for ev in hist:
         cid, data = ALPHA[ev]
@@ -164,19 +199,23 @@ def bfs_check(r: Run, hist: Tuple[int, ...], ev: Any) -> List[Tuple[str, str]]:
     return out
 
 
-def explore(unit: Tuple[Tuple[int, ...], int]) -> Part:
-    start, depth = unit
+_BFS_VARIANT = ["plain"]
+
+
+def explore(unit: Tuple[Tuple[int, ...], int, str]) -> Part:
+    start, depth, variant = unit
+    _BFS_VARIANT[0] = variant
     part = Part()
     seen: set = set()
-    res = bfs(init=Run, events=lambda s: range(len(ALPHA)), step=bfs_step, canon=lambda s: digest(s.canon()),
+    res = bfs(init=lambda: Run(variant=variant), events=lambda s: range(len(ALPHA)), step=bfs_step, canon=lambda s: digest(s.canon()),
               check=bfs_check, depth=depth, seen=seen, start_hist=start)
     part.count("transitions", res.transitions)
     part.count("bfs_sequences", res.transitions)
-    part.sets["states"] = seen
+    part.sets["states"] = {(variant, x) for x in seen}
     part.add("depth", len(start) + res.max_depth)
     part.count("bfs_frontier_left_at_bound", res.frontier_left)
     for key, hist, detail in res.violations:
-        part.violation(key, {"mode": "sequence", "frames": [[ALPHA[e][0], fh(ALPHA[e][1])] for e in hist]}, detail)
+        part.violation(key, {"mode": "sequence", "variant": variant, "frames": [[ALPHA[e][0], fh(ALPHA[e][1])] for e in hist]}, detail)
     return part
 
 
@@ -206,6 +245,8 @@ def fault_menu(stream: List[Tuple[int, bytes]], pos: int) -> List[Tuple[str, Lis
     for n in (0, 1, 2):
         if len(d) > n:
             out.append((f"truncate{n}", [(cid, d[:n])]))
+    if d[0] != 0:
+        out.append(("pci-byte-zero", [(cid, bytes([0]) + d[1:])]))
     for hi in range(16):
         if hi != d[0] >> 4:
             out.append((f"pci{hi:x}", [(cid, bytes([(hi << 4) | (d[0] & 0xF)]) + d[1:])]))
@@ -245,8 +286,8 @@ def apply_faults(stream: List[Tuple[int, bytes]], faults: List[Tuple[int, str]])
     return out
 
 
-def run_stream(frames: List[Tuple[int, bytes]]) -> Tuple[List[Tuple[str, str]], Run]:
-    r = Run()
+def run_stream(frames: List[Tuple[int, bytes]], variant: str = "plain") -> Tuple[List[Tuple[str, str]], Run]:
+    r = Run(variant=variant)
     probs: List[Tuple[str, str]] = []
     for cid, d in frames:
         r.deliver(cid, d)
@@ -260,7 +301,7 @@ def run_stream(frames: List[Tuple[int, bytes]]) -> Tuple[List[Tuple[str, str]], 
 
 
 def fault_unit(unit: Tuple[str, int]) -> Part:
-    name, nfaults, shard, nshards = unit
+    name, nfaults, shard, nshards, variant = unit
     part = Part()
     stream = base_streams()[name]
     combos: List[List[Tuple[int, str]]] = []
@@ -281,11 +322,11 @@ def fault_unit(unit: Tuple[str, int]) -> Part:
         if frames is None:
             continue
         part.count("fault_executions")
-        probs, r = run_stream(frames)
+        probs, r = run_stream(frames, variant)
         part.add("nontrivial", digest((name, [f for _, f in faults], [fh(t) for _, t in r.outputs])))
         part.add("outcomes", digest([fh(t) for _, t in r.outputs]))
         for key, detail in probs:
-            part.violation(key, {"mode": "stream", "base": name, "faults": [list(f) for f in faults],
+            part.violation(key, {"mode": "stream", "variant": variant, "base": name, "faults": [list(f) for f in faults],
                                  "frames": [[c, fh(d)] for c, d in frames]}, detail)
         if nfaults == 2 and part.counts["fault_executions"] % 5000 == 1:
             part.sample({"base": name, "faults": faults, "telegrams": [fh(t) for _, t in r.outputs]}, limit=2)
@@ -308,14 +349,16 @@ def run(ctx: Ctx) -> None:
     for k in (0, 1, 2):
         for n in streams:
             ns = 32 if (k == 2 and len(streams[n]) > 10) else (4 if k == 2 else 1)
-            units.extend((n, k, sh, ns) for sh in range(ns))
+            for variant in VARIANTS:
+                if variant != "plain" and k == 2 and (ctx.quick or len(streams[n]) > 10):
+                    continue  # the verbose decoders share the reassembly code: double faults on them only for short streams, thorough tier
+                units.extend((n, k, sh, ns, variant) for sh in range(ns))
     if ctx.quick:
         units = [u for u in units if not (u[1] == 2 and u[0] == "FF+17CF")]
         ctx.note("quick: double faults on the 18-frame stream are left to the thorough tier")
     pmap(ctx, fault_unit, units)
     # BFS (single process: the reachable state space is small and is explored to its fixpoint if the depth allows)
-    root = explore(((), depth))
-    ctx.merge(root)
+    pmap(ctx, explore, [((), depth if v == "plain" or not ctx.quick else min(depth, 5), v) for v in VARIANTS])
     states = ctx.sets.pop("states")
     ctx.counts["states"] = len(states)
     ctx.counts["max_depth"] = max(ctx.sets.pop("depth"))
@@ -330,12 +373,14 @@ def run(ctx: Ctx) -> None:
     for cid in (RX, RX2):
         probs = run_probe(Run(), cid, "init")
         ctx.guard(f"probe is reassembled from the initial state on {cid:#x}", not probs)
+    ctx.bounds["decoder_variants"] = list(VARIANTS)
 
 
 def replay(case: Any) -> List[Tuple[str, str]]:
     frames = [(int(c), bytes.fromhex(h)) for c, h in case["frames"]]
+    variant = case.get("variant", "plain")
     if case.get("mode") == "sequence":
-        r = Run()
+        r = Run(variant=variant)
         out: List[Tuple[str, str]] = []
         last = None
         for cid, d in frames:
@@ -346,5 +391,5 @@ def replay(case: Any) -> List[Tuple[str, str]]:
                 return out
         out.extend(run_probe(r, RX, "after-" + (frame_kind(last) if last is not None else "init")))
         return out
-    probs, _ = run_stream(frames)
+    probs, _ = run_stream(frames, variant)
     return probs
